@@ -539,12 +539,14 @@ def conversions(ctx, bad):
             continue
         want = expected(model)["en-US"]
         case = {"document": label}
+        cs = None
         for target in ("WebVTT", "SAMI"):
             if target == "SAMI" and any(nests(items) for cues_ in model["cues"].values() for _, _, items in cues_):
                 continue       # (the span writers keep one open span, not a stack: nested spans are outside the property's domain)
             n += 1
             try:
-                cs = read(serialise(model))
+                # (one read, two writes of the same caption set: a writer that edits the set shows in the second)
+                cs = cs if cs is not None else read(serialise(model))
                 if target == "WebVTT":
                     _, out, _ = M.write("pycaption/webvtt.py", "WebVTTWriter", cs, init_kw={"video_width": 640, "video_height": 360})
                     cues, problem = vtt_chars(out)
